@@ -74,6 +74,15 @@ Definition go_index {A} (l : list A) (i : Z) : option A :=
 Definition go_slice {A} (l : list A) (lo hi : Z) : option (list A) :=
   if (lo <? 0) || (hi <? lo) || (hi >? go_len l) then None
   else Some (firstn (Z.to_nat (hi - lo)) (skipn (Z.to_nat lo) l)).
+(* l[i] = v *)
+Fixpoint list_upd {A} (l : list A) (n : nat) (v : A) : list A :=
+  match l, n with
+  | [], _ => []
+  | _ :: t, O => v :: t
+  | a :: t, S k => a :: list_upd t k v
+  end.
+Definition go_set_index {A} (l : list A) (i : Z) (v : A) : option (list A) :=
+  if (i <? 0) || (i >=? go_len l) then None else Some (list_upd l (Z.to_nat i) v).
 (* copy(dst, src): the first min(len dst, len src) elements of dst are replaced *)
 Definition go_copy {A} (dst src : list A) : list A :=
   let n := Nat.min (List.length dst) (List.length src) in firstn n src ++ skipn n dst.
